@@ -10,6 +10,7 @@ import RitiModel.Model.Bijoy
 import RitiModel.Model.Json
 import RitiModel.Model.JsonValue
 import RitiModel.Model.Regex
+import RitiModel.Model.EmojiTables
 import Std.Data.HashMap
 open Riti Std
 
@@ -152,6 +153,33 @@ def matchRanks : List (List Char) → List Rank → Option (List Rank)
       | none => none
       | some rs => some (r :: rs)
 
+/-- the `HashMap` the crate builds from an array of rows: inserted in source order, a later row replaces an earlier one -/
+def genMap {β γ : Type} (rows : List (List Nat × β)) (f : β → γ) : HashMap String γ :=
+  rows.foldl (fun m r => m.insert (key (natsToChars r.1)) (f r.2)) {}
+
+/-- tie of the generated emojicon tables (`Gen/EmojiTables.lean`, read from the crate's SOURCE by the translator) with the
+    table the compiled crate serves (dumped by the harness through the crate's `internal` feature, just loaded from a TSV
+    file): same keys, same values, lists in the same order.  Every disagreement is a `MISMATCH emoji-table` line. -/
+def compareEmojiTable {γ : Type} [BEq γ] (st : St) (kind : String) (gen served : HashMap String γ) (show_ : γ → String) : IO St := do
+  let mut msgs : Array String := #[]
+  let mut agree := 0
+  for (k, v) in gen.toList do
+    match served.get? k with
+    | some v' =>
+      if v == v' then agree := agree + 1
+      else msgs := msgs.push s!"MISMATCH emoji-table {kind}: key [{escape k.toList}] the generated table (crate source) has [{show_ v}], the compiled crate serves [{show_ v'}]"
+    | none => msgs := msgs.push s!"MISMATCH emoji-table {kind}: key [{escape k.toList}] of the generated table (crate source) is not served by the compiled crate"
+  for (k, _) in served.toList do
+    if !gen.contains k then
+      msgs := msgs.push s!"MISMATCH emoji-table {kind}: key [{escape k.toList}] served by the compiled crate is not in the generated table (crate source)"
+  if gen.size != served.size then
+    msgs := msgs.push s!"MISMATCH emoji-table {kind}: the generated table has {gen.size} keys, the compiled crate serves {served.size}"
+  -- at most six lines per table, outside the 200-line budget of `report` (a wholly different table must not hide other lines)
+  for m in msgs.toList.take 5 do IO.println m
+  if msgs.size > 5 then IO.println s!"MISMATCH emoji-table {kind}: {msgs.size} differences in all"
+  return { st with mismatches := st.mismatches + msgs.size,
+                   counters := st.counters.insert s!"emoji-table-{kind}-entries-agree" (st.counters.getD s!"emoji-table-{kind}-entries-agree" 0 + agree) }
+
 def handleExpect (st : St) (impl : String) : IO St := do
   match st.pending with
   | none => return st
@@ -264,7 +292,13 @@ def handle (st : St) (line : String) : IO St := do
       | "emojibn" => { t with emojiBn := rows.foldl (fun m r => match r with | k :: vs => m.insert (key (unescape k)) (vs.map unescape) | _ => m) {} }
       | "dictionary" => { t with dictionary := rows.foldl (fun m r => match r with | k :: vs => m.insert k (vs.map unescape) | _ => m) {} }
       | _ => t
-    return { st with t := t }
+    let st := { st with t := t }
+    let showL (l : List (List Char)) : String := " ".intercalate (l.map escape)
+    match kind with
+    | "emoticon" => compareEmojiTable st kind (genMap Riti.Gen.emoticonRows natsToChars) t.emoticon escape
+    | "emojiname" => compareEmojiTable st kind (genMap Riti.Gen.emojiNameRows (fun l => l.map natsToChars)) t.emojiName showL
+    | "emojibn" => compareEmojiTable st kind (genMap Riti.Gen.bengaliNameRows (fun l => l.map natsToChars)) t.emojiBn showL
+    | _ => return st
   | ["layout", path, tsv] =>
     let rows ← loadTsv tsv
     let m : HashMap String (List Char) := rows.foldl (fun m r => match r with | [k, v] => m.insert k (unescape v) | _ => m) {}
